@@ -53,6 +53,7 @@ var importRules = map[string]importRule{
 	"crypto/rand":                        {newPath: "verifsim/sim/simrand/crand", name: "rand"},
 	"math/rand/v2":                       {newPath: "verifsim/sim/simrand/mrand", name: "rand"},
 	"github.com/database64128/tfo-go/v2": {newPath: "verifsim/sim/simtfo", name: "tfo"},
+	"os/signal":                          {newPath: "verifsim/sim/simsignal", name: "signal"},
 	"os":                                 {newPath: "verifsim/sim/simos", name: "os", only: map[string]bool{"cred/manager.go": true}},
 	Module + "/mmap":                     {newPath: "verifsim/sim/simos/simmmap", name: "mmap", only: map[string]bool{"cred/manager.go": true}},
 }
@@ -242,6 +243,27 @@ func Build(o Options) (*Result, error) {
 	}
 	overlay[procPath] = procOut
 
+	// runtime/rand.go + runtime/alg.go: map seeds and iteration offsets come from a per-run
+	// seeded state while a simulation is active, and the process-wide hash keys are constants, so
+	// that map iteration order is a function of the run's seed and not of the process.
+	if err := patchFile(o, overlay, "rand.go", []patch{{
+		"func maps_rand() uint64 {\n\treturn rand()\n}",
+		"func maps_rand() uint64 {\n\tif s := simMapState; s != 0 {\n\t\t// a per-run constant: independent of how many maps were created before (process warm-up)\n\t\treturn s * 0x2545F4914F6CDD1D\n\t}\n\treturn rand()\n}\n\n// simMapState: see maps_rand (verification overlay).\n//\n//go:linkname simMapState\nvar simMapState uint64",
+	}}); err != nil {
+		return nil, err
+	}
+	// runtime/time.go: synctest deliberately randomises the order of bubble timers that are due at
+	// the same instant; take that order from the run's seed as well.
+	if err := patchFile(o, overlay, "time.go", []patch{{"t.rand = cheaprand()", "t.rand = simselectrandn(0xffffffff)"}}); err != nil {
+		return nil, err
+	}
+	if err := patchFile(o, overlay, "alg.go", []patch{
+		{"hashkey[i] = uintptr(bootstrapRand())", "hashkey[i] = uintptr(0x9e3779b97f4a7c15 * uint64(i+1))"},
+		{"key[i] = bootstrapRand()", "key[i] = 0xbf58476d1ce4e5b9 * uint64(i+1)"},
+	}); err != nil {
+		return nil, err
+	}
+
 	ov, _ := json.MarshalIndent(map[string]any{"Replace": overlay}, "", " ")
 	res.OverlayPath = filepath.Join(o.OutDir, "overlay.json")
 	if err := writeFile(res.OverlayPath, ov); err != nil {
@@ -277,6 +299,29 @@ func simselectrandn(n uint32) uint32 {
 	return uint32((uint64(uint32(s>>32)) * uint64(n)) >> 32)
 }
 `
+
+type patch struct{ old, new string }
+
+// patchFile overlays GOROOT/src/runtime/<name> with the given exact-match replacements.
+func patchFile(o Options, overlay map[string]string, name string, ps []patch) error {
+	p := filepath.Join(o.GoRoot, "src", "runtime", name)
+	src, err := os.ReadFile(p)
+	if err != nil {
+		return err
+	}
+	for _, x := range ps {
+		if bytes.Count(src, []byte(x.old)) != 1 {
+			return fmt.Errorf("runtime/%s: expected text %q not found exactly once (toolchain changed?)", name, x.old)
+		}
+		src = bytes.Replace(src, []byte(x.old), []byte(x.new), 1)
+	}
+	out := filepath.Join(o.OutDir, "goroot", "runtime", name)
+	if err := writeFile(out, src); err != nil {
+		return err
+	}
+	overlay[p] = out
+	return nil
+}
 
 func applyEdits(src []byte, edits []edit) []byte {
 	sort.SliceStable(edits, func(i, j int) bool { return edits[i].off < edits[j].off })
